@@ -12,9 +12,10 @@ mods = []
 for f in sorted(glob.glob("checks/c[0-9][0-9].py")):
     spec = importlib.import_module("checks." + os.path.basename(f)[:-3]).SPEC
     mods += spec.get("lean_modules", [])
+    mods.append("rsslmodel_" + spec["id"].lower())
 print(" ".join(dict.fromkeys(mods)))
 PY
 )
-(cd lean && lake build $MODS rsslmodel 2>&1 | grep -v conda | tail -5)
+(cd lean && lake build $MODS 2>&1 | grep -v conda | tail -5)
 (cd harness && cargo build --offline 2>&1 | grep -v conda | tail -3)
 echo "setup done"
